@@ -34,7 +34,7 @@ import (
 //	                            FNV-1a/32 of WRAM, HRAM, VRAM, OAM ; CPU scratch registers, cycle index, flags,
 //	                            instruction boundary, timer counter, OAM engine flags, APU internals, RTC (MBC3)
 //	      fr                    FNV-1a/32 of the frame (shade indices, 4 = never rendered), of cartridge RAM, serial
-//	                            log length:checksum ; number of samples so far and the running checksums of
+//	                            log length:checksum, number of samples so far and the running checksums of
 //	                            round(sample*19200) left/right
 //
 // After `exit` / `crash` every st/fr/run prints that token.
@@ -218,7 +218,7 @@ func (x *progRun) fr() string {
 	for _, b := range m.serial.Bytes() {
 		hs = fnv32(hs, uint32(b))
 	}
-	return fmt.Sprintf("pix=%08x cram=%08x serial=%d:%08x ; samples=%d %08x %08x", hp, hc, m.serial.Len(), hs, x.nS, x.ckL, x.ckR)
+	return fmt.Sprintf("pix=%08x cram=%08x serial=%d:%08x samples=%d %08x %08x", hp, hc, m.serial.Len(), hs, x.nS, x.ckL, x.ckR)
 }
 
 func progSynth(seed uint64) []byte {
@@ -253,6 +253,12 @@ func (x *progRun) do(op string) string {
 		}
 	case len(w) == 3 && w[0] == "reset" && w[1] == "synth":
 		out = x.start(progSynth(uint64(atoi(w[2]))))
+	case len(w) >= 3 && w[0] == "reset" && w[1] == "code":
+		if rom := progCodeRom(w[2], w[3:]); rom != nil {
+			out = x.start(rom)
+		} else {
+			out = "bad-op"
+		}
 	case len(w) == 1 && w[0] == "reset":
 		x.m = nil
 		out = "ok"
@@ -357,13 +363,69 @@ func (x *progRun) runRom(spec string, frames, fine int, buttons bool) {
 	c.class(fmt.Sprintf("%s/%d/%s/%s", spec, frames, end, last))
 }
 
+// a structured program: fine-grained cuts through the program text, then whole frames
+func (x *progRun) runCode(emph string, frames int) {
+	c := x.c
+	op := progCode(c.rng, emph)
+	if x.do(op) != "ok" {
+		c.class("code/failed/" + op[11:17])
+		return
+	}
+	x.do("st")
+	used := 0
+	for k := 0; k < 60 && x.dead == ""; k++ {
+		n := 1 + c.rng.intn(6)
+		if c.rng.chance(40) {
+			n = 1 + c.rng.intn(400)
+		}
+		x.do(fmt.Sprintf("run %d", n))
+		x.do("st")
+		used += n
+	}
+	last := ""
+	for f := 0; f < frames && x.dead == ""; f++ {
+		if c.rng.intn(3) == 0 {
+			x.do(fmt.Sprintf("btn %d %d", c.rng.intn(8), c.rng.intn(2)))
+		}
+		k := 1 + c.rng.intn(17555)
+		x.do(fmt.Sprintf("run %d", k))
+		x.do("st")
+		x.do(fmt.Sprintf("run %d", 17556-k))
+		x.do("st")
+		last = x.do("fr")
+	}
+	end := x.dead
+	if end == "" {
+		end = "ran"
+	}
+	c.class(fmt.Sprintf("code/%s/%s/%s/%s", emph, op[11:17], end, last))
+}
+
+// ROMs of the fixed list by the property they matter to most (others run the whole list)
+var progRomsFor = map[string][]int{
+	"C02": {0, 2, 5, 6, 7}, "C03": {5, 6, 20, 22}, "C04": {1, 7, 13, 17}, "C05": {1, 7, 13},
+	"C06": {6, 22, 23}, "C07": {6, 10, 22}, "C09": {23, 24, 25, 26}, "C10": {27}, "C12": {13, 14, 15, 16},
+	"C13": {17, 18, 19}, "C14": {17, 18, 19}, "C15": {8, 19}, "C16": {20, 21, 22}, "C17": {8, 9},
+	"C18": {10, 11, 12}, "C19": {10, 11}, "C20": {10, 11, 12}, "C21": {11, 12}, "C22": {0, 1}, "C23": {0, 5},
+}
+
 func progGen(c *ctx) {
 	x := &progRun{c: c}
 	x.do("reset")
 	frames, fine, nSynth, synthFrames := 20, 200, 6, 4
 	roms := progRoms
+	emph := progEmphasis()
+	nCode, codeFrames := 150, 2
+	if idx, ok := progRomsFor[emph]; ok {
+		roms = nil
+		for _, i := range idx {
+			roms = append(roms, progRoms[i])
+		}
+		nSynth = 2
+	}
 	if c.thorough() {
 		frames, nSynth, synthFrames = 300, 40, 12
+		nCode, codeFrames = 3000, 3
 	}
 	enc := func(p string) string { return strings.ReplaceAll(p, " ", "*") }
 	for _, r := range roms {
@@ -372,7 +434,11 @@ func progGen(c *ctx) {
 	for k := 0; k < nSynth; k++ {
 		x.runRom(fmt.Sprintf("synth %d", c.rng.intn(1<<30)), synthFrames, fine, true)
 	}
-	if c.thorough() {
+	for k := 0; k < nCode; k++ {
+		x.runCode(emph, codeFrames)
+	}
+	c.notes["structured_programs"] = nCode
+	if c.thorough() && len(roms) == len(progRoms) {
 		// every other shipped ROM, shorter
 		inList := map[string]bool{}
 		for _, r := range progRoms {
